@@ -6,7 +6,8 @@ RULE = (
     "models obtained by reading Engine-B texts (every syntax form: symbols, dotted identifiers, keywords, numbers incl. NaN/Inf-free "
     "floats and complex, strings under every prefix, bracket strings with leading newlines and ']' runs, f-strings and t-strings plain "
     "and bracketed with conversions, = and nested multi-part format specs, all sequence kinds, sugar in sugar and long form, nested "
-    "to depth 3-4), each top-level model taken separately. Oracle (round trip): m2 = hy.eval(hy.read(hy.repr(m))) has the same model "
+    "to depth 3-4), each top-level model taken separately; plus enumerated bracket f-/t-strings whose format-spec text, up to three "
+    "fields deep, holds quotes, backslashes and newlines (characters a plain f-string would have to escape). Oracle (round trip): m2 = hy.eval(hy.read(hy.repr(m))) has the same model "
     "type at every node, equal values (NaN == NaN), the same brackets / conversion / is_tstring attributes, and hy.repr(m2) == "
     "hy.repr(m). Non-trivial = the model contains an FString/FComponent, a bracket string, or a sugar-shaped expression; distinct by repr text"
 )
@@ -89,7 +90,29 @@ def _where(m, d):
     return kinds[-1] + ("<" + kinds[-2] if len(kinds) > 1 else "") + ":" + what
 
 
+SPEC_TEXTS = ['"', "\\", 'a"b', "\\n", "\n>", ">5", "é\"", "\\\"", "'", "x\ty"]
+SPEC_TEMPLATES = ["#[f[{x :%s}]f]", "#[f[{x :{w :%s}}]f]", "#[f-x[a{x !r :{w :{p :%s}}}b]f-x]", "#[f[{x :>{w :%s}<}]f]", "#[t[{x :{w :%s}}]t]",
+                  "#[f[{x :{w = :%s}}]f]"]
+
+
+def check_text(case):
+    """bracket f-strings whose (nested) format-spec text holds characters that a plain f-string would have to escape"""
+    import hy
+
+    try:
+        ms = list(hy.read_many(case["text"]))
+    except Exception:
+        return None  # not readable: not in the domain
+    for m in ms:
+        r = check_model(m, case["text"])
+        if r:
+            return r
+    return None
+
+
 def check_case(case):
+    if "text" in case:
+        return check_text(case)
     try:
         rd, ms = models_of(case["items"])
     except ValueError:
@@ -121,6 +144,14 @@ def shard(ctx):
             ctx.fail(dict(items=items), r[0], r[1])
 
     ctx.hyp(S["program"], one, ctx.per_shard(5000, 300000), "programs")
+    if ctx.k == 0:
+        for tmpl in SPEC_TEMPLATES:
+            for t in SPEC_TEXTS:
+                case = dict(text=tmpl % t)
+                ctx.case(key=case["text"], nontrivial=True, cls=["bracket-fstring-spec-text"], sample=case["text"])
+                r = check_case(case)
+                if r is not None:
+                    ctx.fail(case, r[0], r[1])
 
 
 def _known_spec_brace(case, bucket, detail):
